@@ -4,6 +4,7 @@ use crate::report::Tier;
 
 pub mod c02;
 pub mod c06;
+pub mod c07;
 pub mod c09;
 pub mod c11;
 pub mod c13;
@@ -17,6 +18,7 @@ pub fn run(prop: &str, tier: Tier, seed: u64) -> Option<i32> {
         "C02" => c02::run(tier, seed),
         "C08" => c02::run_c08(tier, seed),
         "C06" => c06::run(tier, seed),
+        "C07" => c07::run(tier, seed),
         "C09" => c09::run(tier, seed),
         "C11" => c11::run(tier, seed),
         "C13" => c13::run(tier, seed),
@@ -30,6 +32,7 @@ pub fn replay(prop: &str, witness: &serde_json::Value) -> Option<i32> {
     Some(match prop {
         "C02" | "C08" => c02::replay(witness),
         "C06" => c06::replay(witness),
+        "C07" => c07::replay(witness),
         "C09" => c09::replay(witness),
         "C11" => c11::replay(witness),
         "C13" => c13::replay(witness),
